@@ -37,10 +37,10 @@ META = dict(
         '(4,2,1), (5,3,0)}; tails in {1,2}; report all/last; 1 geo per group '
         'vs split layout (2 geos per group, unassigned geo, unassigned-'
         'period rows, shuffled)',
-        thorough='adds (5,2,2), (6,2,2), (8,3,1), (10,4,0) (4 analysed days: '
-        'with 5 days at n_pre = 6 the tolerance form of the design-side '
-        'equality stays unknown at 120 s)'),
-    outside='n_pre > 10, more than 5 analysed days, more than 2 geos per '
+        thorough='adds (5,2,2), (6,2,2), (6,3,1), (5,3,1) (4 analysed days; '
+        'measured: at n_pre >= 8, and at n_pre = 6 with 5 days, z3 answers '
+        'unknown at 120 s on the design-side geometry lemma)'),
+    outside='n_pre > 6, more than 4 analysed days, more than 2 geos per '
     'group; the numerical accuracy of statsmodels / scipy; tails=1 with '
     'level < 1/2 (lower is by definition above the median there)',
     stubs=['sm.OLS (2x2 closed form, df_resid = n-2, cov = scale (X\'X)^-1, '
@@ -517,7 +517,7 @@ def jobs(tier, seed):
   out = []
   shapes = [(3, 1, 0), (3, 2, 0), (4, 1, 1), (4, 2, 1), (5, 3, 0)]
   if tier == 'thorough':
-    shapes += [(5, 2, 2), (6, 2, 2), (8, 3, 1), (10, 4, 0)]
+    shapes += [(5, 2, 2), (6, 2, 2), (6, 3, 1), (5, 3, 1)]
   for (n, T, C) in shapes:
     for tails in (1, 2):
       for rep in (('all', 'last') if (n, T, C) != (3, 1, 0) else ('last',)):
